@@ -1,6 +1,7 @@
 // vcheck: one binary holding every runtime monitor for gogreement (see /verif/DESIGN.md).
 // usage: vcheck <ID> [--replay dir]   (tier/seed via VERIF_TIER / VERIF_SEED)
-//        vcheck drive ...             (in-process go/analysis driver child, see drive.go)
+//
+//	vcheck drive ...             (in-process go/analysis driver child, see drive.go)
 package main
 
 import (
